@@ -103,8 +103,50 @@ def _chain_attrs(e: ast.AST) -> Set[str]:
     return out
 
 
-def clobbers(node: ast.AST, names: Set[str], attrs: Set[str], heap: bool) -> bool:
-    """Can evaluating `node` (one AST node, not its subtree) change the value of an expression reading `names`/`attrs`?"""
+def _is_chain(e: ast.AST) -> bool:
+    while isinstance(e, (ast.Attribute, ast.Subscript)):
+        e = e.value
+    return isinstance(e, ast.Name)
+
+
+def _chains_in(e: ast.AST) -> List[str]:
+    """Access paths (name.attr[sub]...) that occur in an expression, outermost first."""
+    out = []
+
+    def rec(n):
+        if _is_chain(n):
+            out.append(u(n))
+            return
+        for ch in ast.iter_child_nodes(n):
+            rec(ch)
+    rec(e)
+    return out
+
+
+def containers_of(e: ast.AST) -> Set[str]:
+    """Objects whose *contents* the value of `e` depends on: the base of every attribute / subscript read, and every access path
+    handed to a call inside `e` (len(x), x.get(k), sorted(x.items()) ...)."""
+    out: Set[str] = set()
+    for n in ast.walk(e):
+        if isinstance(n, (ast.Attribute, ast.Subscript)) and _is_chain(n.value):
+            out.add(u(n.value))
+        if isinstance(n, ast.Call):
+            for a in list(n.args) + [k.value for k in n.keywords]:
+                out.update(_chains_in(a))
+            if isinstance(n.func, ast.Attribute):
+                out.update(_chains_in(n.func.value))
+        if isinstance(n, (ast.For, ast.comprehension)):
+            out.update(_chains_in(n.iter))
+    return out
+
+
+def _prefix(m: str, k: str) -> bool:
+    return k == m or k.startswith(m + ".") or k.startswith(m + "[")
+
+
+def clobbers(node: ast.AST, names: Set[str], attrs: Set[str], heap: bool, containers: Set[str] = frozenset()) -> bool:
+    """Can evaluating `node` (one AST node, not its subtree) change the value of an expression reading `names`/`attrs` whose value
+    depends on the contents of `containers`?"""
     if isinstance(node, ast.Name) and isinstance(node.ctx, (ast.Store, ast.Del)):
         return node.id in names
     if not heap:
@@ -113,20 +155,32 @@ def clobbers(node: ast.AST, names: Set[str], attrs: Set[str], heap: bool) -> boo
         ca = _chain_attrs(node)
         if ca & attrs:
             return True
+        if isinstance(node, ast.Subscript) and _is_chain(node.value) and any(_prefix(u(node.value), k) for k in containers):
+            return True  # an item store into a container whose contents the expression depends on
         return not ca and _root(node) in names  # x[k] = ... with x read by the expression
     if isinstance(node, ast.Call):
         f = node.func
-        if isinstance(f, ast.Name):
-            if f.id in PURE_FUNCS:
-                return False
-            # a plain function / constructor call: may change what it is handed
-            return any(isinstance(a, ast.Name) and a.id in names for a in list(node.args) + [k.value for k in node.keywords])
+        if isinstance(f, ast.Name) and f.id in PURE_FUNCS:
+            return False
         if isinstance(f, ast.Attribute):
             if f.attr in PURE_METHODS:
                 return False
             recv_attrs = _chain_attrs(f.value)
             if recv_attrs & LOGGERS:
                 return False
+        # what the callee can reach and change: its receiver and everything it is handed
+        handed: List[str] = []
+        for a in list(node.args) + [k.value for k in node.keywords]:
+            handed += _chains_in(a)
+        if isinstance(f, ast.Attribute):
+            handed += _chains_in(f.value)
+        if any(_prefix(m, k) for m in handed for k in containers):
+            return True
+        if isinstance(f, ast.Name):
+            return any(isinstance(a, ast.Name) and a.id in names and a.id in {c.split(".")[0].split("[")[0] for c in containers}
+                       for a in list(node.args) + [k.value for k in node.keywords])
+        if isinstance(f, ast.Attribute):
+            recv_attrs = _chain_attrs(f.value)
             r = _root(f.value)
             if f.attr in MUTATING:
                 return bool(recv_attrs & attrs) or (not recv_attrs and r in names)
@@ -136,7 +190,6 @@ def clobbers(node: ast.AST, names: Set[str], attrs: Set[str], heap: bool) -> boo
                 return True  # a method of an object the expression reads
             if r == "self" and not recv_attrs and "self" in names:
                 return True  # a method of self may write any field
-            return any(isinstance(a, ast.Name) and a.id in names and a.id != "self" for a in list(node.args) + [k.value for k in node.keywords])
     return False
 
 
@@ -228,8 +281,10 @@ def inline_new_locals(fn: ast.AST, ref_locals: Set[str], keep: Set[str] = frozen
                     for x in ast.walk(tt):
                         eff_of[id(x)] = last[id(n)]
         params = {a.arg for a in fn.args.args + fn.args.kwonlyargs + fn.args.posonlyargs}
-        for blk in blocks:
-            for i, s in enumerate(blk):
+        # later bindings first: a local defined from another local is substituted while its defining expression is still small
+        for blk in reversed(blocks):
+            for i in range(len(blk) - 1, -1, -1):
+                s = blk[i]
                 if not (isinstance(s, ast.Assign) and len(s.targets) == 1 and isinstance(s.targets[0], ast.Name)):
                     continue
                 v = s.targets[0].id
@@ -261,6 +316,7 @@ def inline_new_locals(fn: ast.AST, ref_locals: Set[str], keep: Set[str] = frozen
                 def span_loops(node):
                     return {id(l) for l in loops_of[id(node)] if in_span(l)}
                 heap = bool(attrs) or anycall or any(isinstance(x, ast.Subscript) for x in ast.walk(E))
+                conts = containers_of(E)
                 ok = True
                 # names the expression reads must not be rebound in the span (simplest sound condition for names)
                 for nm in names:
@@ -270,7 +326,7 @@ def inline_new_locals(fn: ast.AST, ref_locals: Set[str], keep: Set[str] = frozen
                 if ok:
                     use_info = [(pos[id(x)], span_loops(x)) for x in uses]
                     for c in order[lo:hi + 1]:
-                        if not clobbers(c, names, attrs, heap):
+                        if not clobbers(c, names, attrs, heap, conts):
                             continue
                         eff = last[id(c)] if isinstance(c, ast.Call) else eff_of.get(id(c), pos[id(c)])
                         cl = span_loops(c)
